@@ -51,14 +51,16 @@ def check_channel_paths(rec, ex, tf_eager, tf_lazy, raw_ts, max_index=40):
         vals = ex.values(p)
         n = ex.length(p)
         idxs = list(range(n)) if n <= max_index else list(range(0, n, max(1, n // max_index)))
+        skip_unscaled = bool(eo.get('skip_unscaled'))
         if tf_eager is not None:
             ch = tf_eager[g][c]
             paths = [
                 ('eager[:]', lambda: ch[:]), ('eager[...]', lambda: ch[...]), ('eager.data', lambda: ch.data),
                 ('eager.read_data()', lambda: ch.read_data()),
-                ('eager.read_data(scaled=False)', lambda: ch.read_data(scaled=False)),
-                ('eager.raw_data', lambda: ch.raw_data),
             ]
+            if not skip_unscaled:
+                paths += [('eager.read_data(scaled=False)', lambda: ch.read_data(scaled=False)),
+                          ('eager.raw_data', lambda: ch.raw_data)]
             for name, fn in paths:
                 ok, got = rec.guard('access:' + name, fn)
                 if ok:
@@ -74,8 +76,9 @@ def check_channel_paths(rec, ex, tf_eager, tf_lazy, raw_ts, max_index=40):
             paths = [
                 ('lazy[:]', lambda: ch[:]), ('lazy[...]', lambda: ch[...]),
                 ('lazy.read_data()', lambda: ch.read_data()),
-                ('lazy.read_data(scaled=False)', lambda: ch.read_data(scaled=False)),
             ]
+            if not skip_unscaled:
+                paths.append(('lazy.read_data(scaled=False)', lambda: ch.read_data(scaled=False)))
             for name, fn in paths:
                 ok, got = rec.guard('access:' + name, fn)
                 if ok:
@@ -180,6 +183,10 @@ def check_file_chunks(rec, ex, tf_lazy, raw_ts):
 
 def check(case, rec):
     from nptdms import TdmsFile
+    if 'graph' in case:
+        return check_scaled(case, rec)
+    if 'raw_ts' not in case:
+        return check_daqmx(case, rec)
     fs = case['fs']
     raw_ts = case['raw_ts']
     data, _i, _l = encode_file(fs)
@@ -209,6 +216,159 @@ def check(case, rec):
             del tf_e, tf_l
 
 
+class DaqEx(object):
+    """Expected-like view of a DAQmx file: every channel's scaled data is its highest-numbered (or only) scaler"""
+
+    def __init__(self, fs):
+        from vf.daqmx import expected_daqmx
+        self.exd = expected_daqmx(fs)
+        self.objects = {}
+        for p, eo in self.exd.items():
+            last = sorted(eo['scalers'])[-1]
+            t, vals = eo['scalers'][last]
+            self.objects[p] = {'type': t, 'vals': vals, 'len': eo['len'], 'chunks': eo['chunks'],
+                               'skip_unscaled': eo['chan_type'] == 'raw', 'scalers': eo['scalers']}
+
+    def channel_paths(self):
+        return list(self.objects)
+
+    def values(self, p):
+        return self.objects[p]['vals']
+
+    def length(self, p):
+        return self.objects[p]['len']
+
+    def chunk_table(self, p):
+        out, pos = [], 0
+        for (s, k, n) in self.objects[p]['chunks']:
+            out.append((s, k, pos, n))
+            pos += n
+        return out
+
+
+def check_daqmx(case, rec):
+    from nptdms import TdmsFile
+    from vf.observe import compare_values
+    fs = case['fs']
+    data, _i, _l = encode_file(fs)
+    ex = DaqEx(fs)
+    rec.nontrivial(_nontrivial(ex))
+    rec.label('daqmx', 'memmap' if case['memmap'] else 'in_memory', 'path' if case['as_path'] else 'stream')
+    with scratch_file(data, as_path=case['as_path']) as (src, tmpdir):
+        mm = tmpdir if case['memmap'] else None
+
+        def source():
+            return src if case['as_path'] else io.BytesIO(data)
+        ok, tf_e = rec.guard('read', lambda: TdmsFile.read(source(), memmap_dir=mm))
+        if not ok:
+            tf_e = None
+        ok, tf_l = rec.guard('open', lambda: TdmsFile.open(source(), memmap_dir=mm))
+        if not ok:
+            tf_l = None
+        try:
+            check_channel_paths(rec, ex, tf_e, tf_l, False)
+            if tf_l is not None:
+                check_file_chunks(rec, ex, tf_l, False)
+            # unscaled agreement for raw (multi-scaler) channels: raw_scaler_data == read_data(scaled=False), both modes
+            for p, eo in ex.objects.items():
+                if not eo['skip_unscaled']:
+                    continue
+                g, c = split_path(p)
+                for name, fn in (('eager.raw_scaler_data', lambda: tf_e[g][c].raw_scaler_data),
+                                 ('eager.read_data(scaled=False)', lambda: tf_e[g][c].read_data(scaled=False)),
+                                 ('lazy.read_data(scaled=False)', lambda: tf_l[g][c].read_data(scaled=False))):
+                    if (tf_e if name.startswith('eager') else tf_l) is None:
+                        continue
+                    ok, d = rec.guard('access:' + name, fn)
+                    if not ok:
+                        continue
+                    if sorted(d.keys()) != sorted(eo['scalers']):
+                        rec.violation('agree:' + name, '%s: scaler ids %r expected %r' % (p, sorted(d.keys()), sorted(eo['scalers'])))
+                        continue
+                    for sid, (t, vals) in eo['scalers'].items():
+                        _viol(rec, 'agree:' + name, compare_values(t, vals, d[sid], '%s %s scaler %d' % (name, p, sid)))
+        finally:
+            if tf_l is not None:
+                tf_l.close()
+            del tf_e, tf_l
+
+
+class RefEx(object):
+    """Expected-like view whose reference values are the eager full read (differential across access paths)"""
+
+    def __init__(self, path, t, vals, chunks):
+        self.objects = {path: {'type': t, 'skip_unscaled': True}}
+        self._vals = vals
+        self._chunks = chunks
+
+    def channel_paths(self):
+        return list(self.objects)
+
+    def values(self, p):
+        return self._vals
+
+    def length(self, p):
+        from vf.model import tsize
+        return len(self._vals) // tsize(self.objects[p]['type'])
+
+    def chunk_table(self, p):
+        return self._chunks
+
+
+DT_TO_T = {'int8': 'i8', 'int16': 'i16', 'int32': 'i32', 'int64': 'i64', 'uint8': 'u8', 'uint16': 'u16', 'uint32': 'u32',
+           'uint64': 'u64', 'float32': 'f32', 'float64': 'f64'}
+
+
+def check_scaled(case, rec):
+    """scaled channels (C13 graphs): every access path must equal the eager full read bit for bit; raw paths the file"""
+    from nptdms import TdmsFile
+    from props.C13 import build_file
+    from vf.observe import le_bytes, compare_values
+    from vf.model import np_dtype, make_path
+    fs, graph = build_file(case)
+    data, _i, _l = encode_file(fs)
+    t_raw = case['type']
+    raw = b''.join(b''.join(c) for c in case['segs'])
+    rec.label('scaled_channel', 'raw=' + t_raw)
+    ok, tf_e = rec.guard('read', lambda: TdmsFile.read(io.BytesIO(data)))
+    if not ok:
+        return
+    ok, tf_l = rec.guard('open', lambda: TdmsFile.open(io.BytesIO(data)))
+    if not ok:
+        return
+    try:
+        ok, ref = rec.guard('access:eager[:]', lambda: np.asarray(tf_e['g']['c'][:]))
+        if not ok:
+            return
+        t = DT_TO_T.get(ref.dtype.newbyteorder('=').name)
+        if t is None:
+            return
+        chunks, pos = [], 0
+        for si, cs in enumerate(case['segs']):
+            for k, c in enumerate(cs):
+                n = len(c) // np_dtype(t_raw).itemsize
+                chunks.append((si, k, pos, n))
+                pos += n
+        rec.nontrivial(len([c for c in chunks if c[3]]) >= 2)
+        ex = RefEx(make_path('g', 'c'), t, le_bytes(ref), chunks)
+        check_channel_paths(rec, ex, tf_e, tf_l, False)
+        check_file_chunks(rec, ex, tf_l, False)
+        for name, fn in (('eager.raw_data', lambda: tf_e['g']['c'].raw_data),
+                         ('eager.read_data(scaled=False)', lambda: tf_e['g']['c'].read_data(scaled=False)),
+                         ('lazy.read_data(scaled=False)', lambda: tf_l['g']['c'].read_data(scaled=False))):
+            ok, d = rec.guard('access:' + name, fn)
+            if ok:
+                _viol(rec, 'agree:' + name, compare_values(t_raw, raw, d, name))
+    finally:
+        tf_l.close()
+
+
+@st.composite
+def daqmx_cases(draw):
+    from vf.daqmx import daqmx_file
+    return {'fs': draw(daqmx_file(max_len=4)), 'memmap': draw(st.integers(0, 3)) == 0, 'as_path': draw(st.integers(0, 3)) == 0}
+
+
 @st.composite
 def cases(draw, **kw):
     fs = draw(S.file_spec(**kw))
@@ -216,8 +376,17 @@ def cases(draw, **kw):
             'as_path': draw(st.integers(0, 3)) == 0}
 
 
+def _scaled_cases():
+    from props.C13 import cases as c13_cases
+    return c13_cases(noop=True)
+
+
 def jobs(tier):
     if tier == 'quick':
-        return [Job('files', 'hyp', lambda: cases(max_segments=5), n=2500)]
+        return [Job('files', 'hyp', lambda: cases(max_segments=5), n=2500),
+                Job('daqmx_files', 'hyp', daqmx_cases, n=800, check=check_daqmx),
+                Job('scaled_channels', 'hyp', _scaled_cases, n=800, check=check_scaled)]
     return [Job('files', 'hyp', lambda: cases(max_segments=6), n=100000),
-            Job('bigger', 'hyp', lambda: cases(max_segments=8, max_n=60, max_chunks=4), n=20000)]
+            Job('bigger', 'hyp', lambda: cases(max_segments=8, max_n=60, max_chunks=4), n=20000),
+            Job('daqmx_files', 'hyp', daqmx_cases, n=30000, check=check_daqmx),
+            Job('scaled_channels', 'hyp', _scaled_cases, n=30000, check=check_scaled)]
